@@ -1241,12 +1241,20 @@ impl MutableArchive {
             return self.write_tables_v3_plus();
         }
 
-        // For V1/V2 archives, use the original simple approach
+        // For V1/V2 archives both tables are written behind everything that is in use. The
+        // block table grows with every added file, so rewriting it where it was would run
+        // into the data that follows it.
         let archive_offset = self.archive.archive_offset();
+        let tables_start = self.get_archive_end_offset()?;
+        let hash_table_len = self
+            .hash_table
+            .as_ref()
+            .map_or(0, |t| t.entries().len() as u64 * 16);
 
         // Write hash table
         if let Some(hash_table) = &self.hash_table {
-            let hash_table_pos = archive_offset + header.hash_table_pos as u64;
+            let hash_table_pos = tables_start;
+            self.updated_hash_table_pos = Some(hash_table_pos - archive_offset);
             self.file.seek(SeekFrom::Start(hash_table_pos))?;
 
             // Convert to bytes and encrypt
@@ -1275,7 +1283,8 @@ impl MutableArchive {
 
         // Write block table
         if let Some(block_table) = &self.block_table {
-            let block_table_pos = archive_offset + header.block_table_pos as u64;
+            let block_table_pos = tables_start + hash_table_len;
+            self.updated_block_table_pos = Some(block_table_pos - archive_offset);
             self.file.seek(SeekFrom::Start(block_table_pos))?;
 
             // Convert to bytes and encrypt
@@ -1300,6 +1309,10 @@ impl MutableArchive {
                 self.file.write_all(&value.to_le_bytes())?;
             }
         }
+
+        // Files added later go behind the tables just written
+        let tables_end = self.file.stream_position()?;
+        self.next_file_offset = Some((tables_end + 511) & !511);
 
         Ok(())
     }
@@ -1647,6 +1660,19 @@ impl MutableArchive {
                 header.block_table_size = new_size;
                 needs_update = true;
             }
+        }
+
+        // The tables may have moved
+        if self.updated_hash_table_pos.is_some() || self.updated_block_table_pos.is_some() {
+            needs_update = true;
+        }
+
+        // For V1/V2 the archive now ends behind the rewritten tables
+        if header.format_version < FormatVersion::V3
+            && let (Some(block_pos), Some(block_table)) =
+                (self.updated_block_table_pos, &self.block_table)
+        {
+            header.archive_size = (block_pos + block_table.entries().len() as u64 * 16) as u32;
         }
 
         if needs_update {
